@@ -17,6 +17,13 @@ def main():
     seed = int(os.environ.get('VERIF_SEED', '0') or 0)
     tier = args.tier if args.tier in ('quick', 'thorough') else 'quick'
     import common
+    # temporary files of the runs (multiprocessing manager sockets, sandboxes) live in the per-process scratch
+    # directory, which is removed at exit, instead of piling up under /tmp
+    import tempfile
+    tmp = os.path.join(common.scratch(), 'tmp')
+    os.makedirs(tmp, exist_ok=True)
+    os.environ['TMPDIR'] = tmp
+    tempfile.tempdir = tmp
     report = common.Report(args.prop, tier, seed)
     replay = json.load(open(args.replay)) if args.replay else None
     import registry
